@@ -127,6 +127,7 @@ std::string prop_generate(Tape & t, int size) {
                 bool text = (o.stor == 2 || o.stor == 3);
                 o.data = gen_payload(t, big_budget > 0 ? size : 10, text);
                 if (o.data.gen && o.data.n > 70000) --big_budget;
+                if (o.stor == 1 && t.chance(1, 8)) o.nulldata = true;   // NULL data with a non-zero size: rejected, file unchanged
                 p.ops.push_back(o);
                 break;
             }
